@@ -348,14 +348,19 @@ fn exec_inner(name: &str, alt: bool, p: &[&str]) -> Option<String> {
         ("list", [t, f, g]) => run_list(mk_tag(t)?, opt(f, filter)?, tags(g)?, alt),
         ("count", [f]) => run(Count::new(filter(f)?)),
         ("countGrouped", [g, f]) => {
+            // a filter set twice: the documented behaviour is that the last call wins ("will overwrite
+            // the filter"); for every other op line (by the length of its text) an earlier filter is set first
+            let twice = (g.len() + f.len()) % 2 == 0;
             let g = mk_tag(g)?;
             match opt(f, filter)? {
                 None => run(CountGrouped::new(g)),
                 Some(f) => {
-                    if alt {
-                        run(Count::new(f).group_by(g))
-                    } else {
-                        run(CountGrouped::new(g).filter(f))
+                    let earlier = || Filter::tag(Tag::Genre, "overwritten");
+                    match (alt, twice) {
+                        (true, false) => run(Count::new(f).group_by(g)),
+                        (true, true) => run(Count::new(earlier()).group_by(g).filter(f)),
+                        (false, false) => run(CountGrouped::new(g).filter(f)),
+                        (false, true) => run(CountGrouped::new(g).filter(earlier()).filter(f)),
                     }
                 }
             }
